@@ -115,10 +115,20 @@ inductive Obs
   | rejected (name : String) (status : Nat)
   deriving DecidableEq, Repr
 
+/-- What an accepted presentation shows beyond the statement of C06 (NOT violations: C06 demands a valid
+    signature of the configured key under an asymmetric algorithm, and these presentations carry one):
+    go-jose also parses the JWS JSON serialization, so a valid token re-wrapped as
+    `{"protected":…,"payload":…,"signature":…}` is accepted, and members of an unprotected header are merged
+    into the (unsigned part of the) header the session sees.  RFC 7519 says JWTs are always compact; recorded
+    as an observation in DESIGN.md, kept out of the monitor. -/
+def serializationRemarks (t : Token) : List String :=
+  (if t.json then ["compact_form"] else []) ++
+  (if t.json && t.nseg != 3 then ["three_segments"] else []) ++
+  (if !t.unsignedHdr.isEmpty then ["unsigned_header"] else [])
+
 /-- clauses of C06 an ACCEPTED presentation violates -/
 def acceptViolations (cfg : KeyCfg) (t : Token) : List String :=
-  (if t.json then ["compact_form"] else []) ++
-  (if t.nseg != 3 then ["three_segments"] else []) ++
+  (if !t.json && t.nseg != 3 then ["three_segments"] else []) ++
   (if !(t.hdrOK && t.nsig == 1 && t.payloadOK && (t.json || t.b64OK) && (!t.json || t.jsonOK)) then ["well_formed"] else []) ++
   (match algFamily t.alg with
     | .none => ["alg_none"]
@@ -131,8 +141,7 @@ def acceptViolations (cfg : KeyCfg) (t : Token) : List String :=
       (if algFamily t.alg != ty.family then ["alg_key_type"] else []) ++
       (if t.signedBy != some k then ["signature"] else [])) ++
   (if !t.critOK then ["crit"] else []) ++
-  (if !t.claims.valid then ["claims"] else []) ++
-  (if !t.unsignedHdr.isEmpty then ["unsigned_header"] else [])
+  (if !t.claims.valid then ["claims"] else [])
 
 /-- `checkClass`: whether the error class is prescribed for this operation (the signer-level
     `Validate` returns no RFC errors) -/
